@@ -117,4 +117,25 @@ META["C18"] = {
     "assumptions": ["termination observed within 5 s per input only"],
 }
 
+META["C20"] = {
+    "level": "proof",
+    "level_text": "Deductive proof (straight-line VC) that calc_ast_hash(a) == md5_hex(utf8(dump(a))) "
+    "for every node: the result is one fixed function of ast.dump(a), the function reads nothing "
+    "else (frame: modifies nothing, no ghost attribute, clock, pid or hash seed), and no partial "
+    "operation can raise. With the trusted model of ast.dump this gives 'equal structure => equal "
+    "hash' independent of positions, formatting, process and non-field annotations. The converse "
+    "(different structure => different hash) rests on dump/utf-8 injectivity (trusted) and on MD5 "
+    "collision-freeness, which is an ASSUMPTION no verifier can discharge; it is observed bounded on "
+    "~1400 single-edit pairs.",
+    "level_note": "Trusted: models of ast.dump (injective on field structure, ignores positions and "
+    "non-field attributes), str.encode('utf-8') (total, injective), hashlib.md5 (a function of its "
+    "input). MD5 collision-freeness is assumed, not proved.",
+    "technique": "contract-based deductive verification (VC from the real source, z3) over trusted library models; bounded contract check for the model assumptions",
+    "p_keys": True,
+    "explanation": "calc_ast_hash verified against the contract result == md5_hex(utf8(ast.dump(a))), "
+    "modifies nothing, raises nothing.",
+    "assumptions": ["MD5 collision-freeness on the compared queries (assumption)",
+                    "ast.dump model: injective on field structure, independent of positions / non-field attributes"],
+}
+
 NOT_APPLICABLE = {}
